@@ -168,16 +168,22 @@ func tagsOfSpec(fs *FuncSpec) map[string]bool {
 	return t
 }
 
-// structural obligations must not disappear between runs of the unchanged contracts.
+// structural obligations: the contract-level obligations of a function (as opposed to per-site safety and
+// precondition obligations); those of a dependency are all solved with the property that relies on it.
 func isStructural(name string) bool {
-	// (frame: obligations exist only for arrays some path writes; a change that stops writing one is
-	// harmless, so their disappearance is not reported)
-	for _, p := range []string{"post:", "emits", "inv-init:", "inv-pres:", "ho:", "complete", "disjoint", "lemma:"} {
+	for _, p := range []string{"post:", "emits", "inv-init:", "inv-pres:", "frame:", "ho:", "complete", "disjoint", "lemma:"} {
 		if strings.HasPrefix(name, p) {
 			return true
 		}
 	}
 	return false
+}
+
+// tracked obligations must not disappear between runs of the unchanged contracts. frame: obligations
+// exist only for arrays some path writes; a change that stops writing one is harmless, so their
+// disappearance is not reported.
+func isTracked(name string) bool {
+	return isStructural(name) && !strings.HasPrefix(name, "frame:")
 }
 
 func cmdCheck(args []string) int {
@@ -397,7 +403,7 @@ func cmdCheck(args []string) int {
 			}
 			byKind[kind]++
 			solverMS += r.TimeMS
-			if isStructural(r.Name) {
+			if isTracked(r.Name) {
 				structural = append(structural, k+"#"+r.Name)
 			}
 			crossChecked += r.CrossChecked
@@ -524,7 +530,7 @@ func cmdCheck(args []string) int {
 			have[s] = true
 		}
 		for _, want := range strings.Split(strings.TrimSpace(string(data)), "\n") {
-			if k := strings.Index(want, "#"); k < 0 || !isStructural(want[k+1:]) {
+			if k := strings.Index(want, "#"); k < 0 || !isTracked(want[k+1:]) {
 				continue
 			}
 			if want != "" && !have[want] {
